@@ -210,16 +210,34 @@ def run(ctx):
         reply = len(eb).to_bytes(4, "little") + b"\x00" * 4 + (0x20000).to_bytes(8, "little") + len(eb).to_bytes(8, "little") + eb + b"\x00" * (-len(eb) % 4) + b"\x00" * 4
         for pad in (range(16) if ctx.thorough else [0, rng.randrange(1, 16), 15]):
             tr = r.SecTrailer(r.SecurityProvider(10), r.AuthenticationLevel(6), pad, 0, b"\x00" * 16)
-            resp = _request.Response(header=r.PDUHeader(5, 0, r.PacketType.RESPONSE, r.PacketFlags(3), r.DataRep(), 0, 16, 1), sec_trailer=tr, alloc_hint=0, context_id=0, cancel_count=0,
-                                     stub_data=reply + bytes(rng.randrange(256) for _ in range(pad)))
-            try:
-                got = "ok " + gen.env_fields(cl._process_get_key_result(resp))
-            except Exception as e:  # noqa
-                got = "err " + canon_exc(e)
-            cases.append((f"getkey_result {hx(resp.stub_data)} {pad}", got))
-            ctx.count(f"reply_pad:{pad}")
-            if got != "ok " + gen.env_fields(env):
-                ctx.violation("reply path does not strip exactly the declared auth padding", {"pad_length": pad, "reply_len": len(reply)}, got[:100], "the envelope")
+            padding = bytes(rng.randrange(1, 256) for _ in range(pad))
+            # the allocation hint is a hint: whatever convention the server follows for it (absent, the marshalled length, the length with
+            # the auth padding, anything else), the region decoded is the stub minus exactly the declared pad_length
+            for hint in (0, len(reply), len(reply) + pad, 4, max(len(reply) - 4, 0), 2**32 - 1):
+                resp = _request.Response(header=r.PDUHeader(5, 0, r.PacketType.RESPONSE, r.PacketFlags(3), r.DataRep(), 0, 16, 1), sec_trailer=tr, alloc_hint=hint, context_id=0, cancel_count=0,
+                                         stub_data=reply + padding)
+                try:
+                    got = "ok " + gen.env_fields(cl._process_get_key_result(resp))
+                except Exception as e:  # noqa
+                    got = "err " + canon_exc(e)
+                if hint == 0:
+                    cases.append((f"getkey_result {hx(resp.stub_data)} {pad}", got))
+                ctx.count(f"reply_pad:{pad}")
+                if got != "ok " + gen.env_fields(env):
+                    ctx.violation("reply path does not strip exactly the declared auth padding", {"pad_length": pad, "reply_len": len(reply), "alloc_hint": hint}, got[:100], "the envelope")
+            # a failed GetKey (non-zero HRESULT) stays a failure whatever the padding octets and the hint say
+            bad = reply[:-4] + (0x80070005).to_bytes(4, "little")
+            for hint in (0, len(bad) + pad):
+                resp = _request.Response(header=r.PDUHeader(5, 0, r.PacketType.RESPONSE, r.PacketFlags(3), r.DataRep(), 0, 16, 1), sec_trailer=tr, alloc_hint=hint, context_id=0, cancel_count=0,
+                                         stub_data=bad + b"\x00" * pad)
+                try:
+                    cl._process_get_key_result(resp)
+                    got = "ok"
+                except Exception as e:  # noqa
+                    got = "err " + canon_exc(e)
+                ctx.count("reply_failed_hresult")
+                if got == "ok":
+                    ctx.violation("reply path: a failed GetKey (HRESULT 0x80070005) is reported as success", {"pad_length": pad, "reply_len": len(bad), "alloc_hint": hint}, got, "error")
         resp = _request.Response(header=r.PDUHeader(5, 0, r.PacketType.RESPONSE, r.PacketFlags(3), r.DataRep(), 0, 0, 1), sec_trailer=None, alloc_hint=0, context_id=0, cancel_count=0, stub_data=reply)
         cases.append((f"getkey_result {hx(reply)} none", "ok " + gen.env_fields(cl._process_get_key_result(resp))))
     for i in range(0, len(cases), 2000):
